@@ -163,6 +163,11 @@ let labels_of_part (env : env) (p : string) : label list =
       send (side_of hd.[0]) KBad
   | "CQ1" | "CQ2" | "CQ3" | "SQ1" | "SQ2" | "SQ3"
   | "CW1" | "CW2" | "CW3" | "CW4" | "CW5" | "SW1" | "SW2" | "SW3" | "SW4" | "SW5" -> send (side_of hd.[0]) KBad
+  | "cmf" | "smf" ->
+      (* SETTINGS_MAX_FRAME_SIZE: outside [16384, 2^24-1] processFrame returns a connection error; a legal value is
+         forwarded (no window entry in these frames: no sweep) *)
+      let v = try int_of_string (List.nth f 1) with _ -> -1 in
+      if v < 16384 || v > 16777215 then send (side_of hd.[0]) KBad else send (side_of hd.[0]) KDirect
   | "cp" | "sp" -> send (side_of hd.[0]) KDirect
   | "CE1" | "CE2" | "CE3" | "SE1" | "SE2" | "SE3" -> send (side_of hd.[0]) KBad
   | "CC" ->
